@@ -1,7 +1,7 @@
 #!/bin/sh
 # run every seeded change against the check of its property (scratch copy of /repo; /repo itself is not touched)
 cd /verif
-for d in seeded/C*/; do p=$(basename $d)
-  n=$(LINES_MAX=100 ./tools/mutrun.sh $p $d/patch.diff ${1:-quick} | grep -c "^VIOLATION property=$p")
-  echo "$p ${1:-quick} violations_reported=$n" | tee $d/result_${1:-quick}.txt
+for d in seeded/C*/; do n=$(basename $d); p=$(echo $n | cut -c1-3)
+  k=$(LINES_MAX=100 ./tools/mutrun.sh $p $d/patch.diff ${1:-quick} | grep -c "^VIOLATION property=$p")
+  echo "$n ${1:-quick} violations_reported=$k" | tee $d/result_${1:-quick}.txt
 done
